@@ -3,7 +3,9 @@
 EXTENDS Multibyte, Json, TLC
 VARIABLES t, k
 Init == t \in 1..Len(Templates) /\ k = -1
-Next == k = -1 /\ k' \in Offsets(t) /\ UNCHANGED t
-Emit == k = -1 \/ PrintT("MB " \o ToJson([t |-> t, k |-> k, template |-> Templates[t], src |-> Text(t, k)]))
+\* k in Offsets(t): insertion inside / around the template; k = 1000 + e: file-edge text number e
+Next == k = -1 /\ k' \in Offsets(t) \cup {1000 + e : e \in 1..Len(EdgeTexts(t))} /\ UNCHANGED t
+Emit == k = -1 \/ PrintT("MB " \o ToJson([t |-> t, k |-> k, template |-> Templates[t],
+                                         src |-> IF k >= 1000 THEN EdgeTexts(t)[k - 1000] ELSE Text(t, k)]))
 \* every offset of every template is produced exactly once (TLC reports the distinct states)
 =============================================================================
